@@ -86,6 +86,10 @@ func main() {
 	// language.ScriptRanges (inside a script range, in the unassigned gap behind it, at its first/last rune)
 	nsyn := syntheticScripts(hist)
 	evaluations += nsyn
+	// legacy fonts: a corpus font whose 'cmap' is replaced by a symbol-encoded (3,0) format 4 subtable reaching into the
+	// private use blocks the remapers use, with an OS/2 version 0 table selecting no / the simplified / the traditional
+	// arabic font page: Lookup of the loaded face vs the coverage recorded by the scanner
+	evaluations += syntheticLegacy(files, hist)
 	if fonts == 0 {
 		emit(map[string]any{"fail": "no corpus font could be loaded", "kind": "harness"})
 		os.Exit(1)
@@ -203,6 +207,26 @@ func sweepFont(name, kind string, ft *font.Font, ld *ot.Loader) {
 			emit(map[string]any{"fail": name + ": script set not strictly sorted", "kind": "script-order", "font": name})
 		}
 	}
+	// language set = the languages whose exemplar runes are all covered (table entry by table entry, rune by rune)
+	for id, runes := range fontscan.VerifLanguagesRunes() {
+		want := true
+		for _, p := range fontscan.VerifPages(runes) {
+			for w, word := range p.Set {
+				for b := 0; b < 32 && want; b++ {
+					if word&(1<<uint(b)) != 0 && !fp.Runes.Contains(rune(p.Ref)<<8|rune(w)<<5|rune(b)) {
+						want = false
+					}
+				}
+			}
+		}
+		if got := fp.Langs.Contains(fontscan.LangID(id)); got != want {
+			emit(map[string]any{"fail": fmt.Sprintf("%s: language id %d: LangSet.Contains = %v, all exemplar runes covered = %v", name, id, got, want), "kind": "langset", "font": name})
+			break
+		}
+	}
+	if errl == nil && fpl.Langs != fp.Langs {
+		emit(map[string]any{"fail": name + ": language set of the scanner differs from the one of the loaded font", "kind": "langset-loader", "font": name})
+	}
 	if fp.Runes.Len() != func() int {
 		n := 0
 		for r := rune(0); r < maxRune; r++ {
@@ -288,5 +312,168 @@ func syntheticScripts(hist map[string]int) int {
 		}
 	}
 	hist["synthetic-script-ranges"] = n
+	return n
+}
+
+// ---- synthetic legacy fonts ----
+
+func be16(b []byte, o int) int { return int(b[o])<<8 | int(b[o+1]) }
+func be32(b []byte, o int) int { return int(b[o])<<24 | int(b[o+1])<<16 | int(b[o+2])<<8 | int(b[o+3]) }
+func put16(b []byte, v int) []byte { return append(b, byte(v>>8), byte(v)) }
+func put32(b []byte, v int) []byte { return append(b, byte(v>>24), byte(v>>16), byte(v>>8), byte(v)) }
+
+// rebuildSfnt returns a copy of a single-font sfnt file where the tables named in [replace] have new contents.
+func rebuildSfnt(data []byte, replace map[string][]byte) []byte {
+	if len(data) < 12 || (be32(data, 0) != 0x00010000 && string(data[:4]) != "OTTO" && string(data[:4]) != "true") {
+		return nil
+	}
+	n := be16(data, 4)
+	if len(data) < 12+16*n {
+		return nil
+	}
+	type tab struct {
+		tag  string
+		body []byte
+	}
+	var tabs []tab
+	seen := map[string]bool{}
+	for i := 0; i < n; i++ {
+		o := 12 + 16*i
+		tag := string(data[o : o+4])
+		off, l := be32(data, o+8), be32(data, o+12)
+		if off < 0 || l < 0 || off+l > len(data) {
+			return nil
+		}
+		body := data[off : off+l]
+		if nb, ok := replace[tag]; ok {
+			body = nb
+			seen[tag] = true
+		}
+		tabs = append(tabs, tab{tag, body})
+	}
+	for tag := range replace {
+		if !seen[tag] {
+			return nil // keep the table directory sorted: only replace existing tables
+		}
+	}
+	out := append([]byte(nil), data[:12]...)
+	offset := 12 + 16*len(tabs)
+	var bodies []byte
+	for _, t := range tabs {
+		out = append(out, t.tag...)
+		out = put32(out, 0)
+		out = put32(out, offset+len(bodies))
+		out = put32(out, len(t.body))
+		bodies = append(bodies, t.body...)
+		for len(bodies)%4 != 0 {
+			bodies = append(bodies, 0)
+		}
+	}
+	return append(out, bodies...)
+}
+
+// legacyCmap is a 'cmap' table with one (3,0) format 4 subtable: ASCII letters by delta, one private use segment
+// [lo, hi] through a glyph index array with missing-glyph entries, and the final 0xFFFF segment.
+func legacyCmap(lo, hi, nGlyphs int) []byte {
+	segs := [][4]int{{0x41, 0x5a, 0, 0}, {lo, hi, 0, 1}, {0xffff, 0xffff, 1, 0}}
+	var ga []byte
+	for c := lo; c <= hi; c++ {
+		g := 1 + (c-lo)%(nGlyphs-1)
+		if (c-lo)%7 == 3 {
+			g = 0 // missing glyph
+		}
+		ga = put16(ga, g)
+	}
+	sub := put16(nil, 4)
+	sub = put16(sub, 16+8*len(segs)+len(ga))
+	sub = put16(sub, 0)
+	sub = put16(sub, 2*len(segs))
+	sub = put16(sub, 4)
+	sub = put16(sub, 1)
+	sub = put16(sub, 2*len(segs)-4)
+	for _, s := range segs {
+		sub = put16(sub, s[1])
+	}
+	sub = put16(sub, 0)
+	for _, s := range segs {
+		sub = put16(sub, s[0])
+	}
+	for _, s := range segs {
+		d := 0
+		if s[3] == 0 {
+			d = (1 + 0x10000 - s[0]) & 0xffff // the first rune of the segment gets glyph 1
+			if s[0] == 0xffff {
+				d = 1
+			}
+		}
+		sub = put16(sub, d)
+	}
+	for i, s := range segs {
+		if s[3] == 1 {
+			sub = put16(sub, 2*(len(segs)-i)) // the glyph array follows the idRangeOffset array
+		} else {
+			sub = put16(sub, 0)
+		}
+	}
+	sub = append(sub, ga...)
+	out := put16(nil, 0)
+	out = put16(out, 1)
+	out = put16(out, 3)
+	out = put16(out, 0)
+	out = put32(out, 12)
+	return append(out, sub...)
+}
+
+func syntheticLegacy(files []string, hist map[string]int) int {
+	n := 0
+	for _, name := range files {
+		data, err := td.Files.ReadFile(name)
+		if err != nil {
+			continue
+		}
+		lds, err := ot.NewLoaders(bytes.NewReader(data))
+		if err != nil || len(lds) != 1 {
+			continue
+		}
+		ft, err := font.NewFont(lds[0])
+		if err != nil || font.VerifCmapKind(ft.Cmap) != "cmap4" {
+			continue
+		}
+		os2, err := lds[0].RawTable(ot.MustNewTag("OS/2"))
+		if err != nil || len(os2) < 78 {
+			continue
+		}
+		for _, v := range []struct {
+			page   byte
+			lo, hi int
+			kind   string
+		}{{0x00, 0xf020, 0xf0ff, "remaperSymbol"}, {0xb2, 0xf100, 0xf1ff, "remaperPUASimp"}, {0xb3, 0xf200, 0xf2ff, "remaperPUATrad"}} {
+			nos2 := append([]byte(nil), os2[:78]...) // version 0 layout
+			nos2[0], nos2[1] = 0, 0
+			nos2[62] = v.page // high byte of fsSelection: the font page
+			file := rebuildSfnt(data, map[string][]byte{"cmap": legacyCmap(v.lo, v.hi, 8), "OS/2": nos2})
+			if file == nil {
+				continue
+			}
+			l2, err := ot.NewLoaders(bytes.NewReader(file))
+			if err != nil || len(l2) != 1 {
+				emit(map[string]any{"fail": fmt.Sprintf("synthetic legacy font from %s: not loadable: %v", name, err), "kind": "harness"})
+				continue
+			}
+			f2, err := font.NewFont(l2[0])
+			if err != nil {
+				emit(map[string]any{"fail": fmt.Sprintf("synthetic legacy font from %s: %v", name, err), "kind": "harness"})
+				continue
+			}
+			if k := font.VerifCmapKind(f2.Cmap); k != v.kind {
+				emit(map[string]any{"fail": fmt.Sprintf("synthetic legacy font from %s page %#x: cmap kind %s, expected %s", name, v.page, k, v.kind), "kind": "legacy-kind"})
+			}
+			sweepFont(fmt.Sprintf("legacy(%#x):%s", v.page, name), v.kind, f2, l2[0])
+			hist["legacy="+v.kind]++
+			n += maxRune
+		}
+		return n // one base font is enough
+	}
+	emit(map[string]any{"fail": "no corpus font suitable for the synthetic legacy fonts", "kind": "harness"})
 	return n
 }
